@@ -173,3 +173,61 @@ func (x *Exec) ixProbe(op *Op) {
 		}
 	}
 }
+
+// backup (C20): Log.Backup (Var 0) or klevdb.Backup (Var 1) into the history's backup directory
+// (Arg 1: start a fresh, empty target), then: source answers unchanged, target passes Check and opens
+// to a log that answers the query sweep identically.
+func (x *Exec) backup(op *Op) {
+	if op.Arg == 1 || x.bdir == "" {
+		x.bgen++
+		x.bdir = fmt.Sprintf("%s-backup%d", x.dir, x.bgen)
+		os.RemoveAll(x.bdir)
+		if op.Var%2 == 0 {
+			os.MkdirAll(x.bdir, 0o700) // Log.Backup needs the directory; klevdb.Backup creates it
+		}
+	}
+	before := x.digest(x.l, x.obs.KeyQ)
+	var err error
+	if op.Var%2 == 0 {
+		err = x.l.Backup(x.bdir)
+	} else {
+		err = klevdb.Backup(x.dir, x.bdir)
+	}
+	x.emit("backup", map[string]any{"err": errClass(err), "errs": errStr(err), "pkg": op.Var%2 == 1, "fresh": op.Arg == 1})
+	if err != nil {
+		return
+	}
+	after := x.digest(x.l, x.obs.KeyQ)
+	ja, _ := json.Marshal(before)
+	jb, _ := json.Marshal(after)
+	x.emit("same", map[string]any{"a": string(ja), "b": string(jb), "what": "source unchanged by backup", "diff": firstDiff(before, after)})
+	// the target: Check, then open a copy of it (so that the target itself stays as Backup left it)
+	cerr := klevdb.Check(x.bdir, klevdb.Options{KeyIndex: x.h.Keys, TimeIndex: x.h.Times})
+	tmp := x.bdir + "-open"
+	os.RemoveAll(tmp)
+	defer os.RemoveAll(tmp)
+	if e := copyDir(x.bdir, tmp); e != nil {
+		x.emit("backupobs", map[string]any{"err": "Other", "errs": e.Error(), "check": errClass(cerr), "msgs": []MM{}, "next": -1})
+		return
+	}
+	o := x.cur
+	// Check recomputes index timestamps per segment; with a time index it is only defined for
+	// times that never decrease (C01/C20 quantifier), otherwise it is not requested
+	chk := !x.h.Times || x.h.Mono
+	if !chk {
+		cerr = nil
+	}
+	o.Check, o.Recover, o.Eager, o.RO = chk, false, false, false
+	l2, oerr := klevdb.Open(tmp, x.options(o))
+	if oerr != nil {
+		x.emit("backupobs", map[string]any{"err": errClass(oerr), "errs": errStr(oerr), "check": errClass(cerr), "msgs": []MM{}, "next": -1})
+		return
+	}
+	all, _, serr := scanLog(l2, 32)
+	next, _ := l2.NextOffset()
+	x.emit("backupobs", map[string]any{"err": serr, "errs": "", "check": errClass(cerr), "checks": errStr(cerr), "msgs": x.conv(all), "next": next})
+	d2 := x.digest(l2, x.obs.KeyQ)
+	l2.Close()
+	jc, _ := json.Marshal(d2)
+	x.emit("same", map[string]any{"a": string(jb), "b": string(jc), "what": "backup answers like the source", "diff": firstDiff(after, d2)})
+}
